@@ -12,5 +12,6 @@ CONSTANTS
   Seeks <- None
   Pages <- None
   MaxFail = 1
+  StoreRemoves = TRUE
 INVARIANT ModelProps
 CHECK_DEADLOCK FALSE
